@@ -60,11 +60,15 @@ def body(run):
         g, pair, mbm, _ = fz.workable_pair(d / 'in', rng, lambda r: synth.aligned_geom(r, 30), (5, 5), 4, tag='i')
         corr, param = d / 'out' / 'corr.tif', d / 'out' / 'corr_PARAM.tif'
         # pre-seed: nothing / junk bytes / a valid older product of another model
-        pre = rng.choice(['none', 'corr-junk', 'param-junk', 'both-junk', 'old-product', 'old-product'])
+        pre = rng.choice(['none', 'corr-junk', 'param-junk', 'both-junk', 'old-product', 'old-product', 'corr-empty', 'param-empty'])
         if pre in ('corr-junk', 'both-junk'):
             corr.write_bytes(b'OLD CORRECTED FILE')
         if pre in ('param-junk', 'both-junk'):
             param.write_bytes(b'OLD PARAMETER FILE')
+        if pre == 'corr-empty':          # an existing file is an existing file, also when it is empty (e.g. a placeholder made by `touch`)
+            corr.write_bytes(b'')
+        if pre == 'param-empty':
+            param.write_bytes(b'')
         if pre == 'old-product':
             fz.fuse(pair['src_fn'], pair['ref_fn'], corr, model='gain', kernel_shape=(1, 1), max_block_mem=1e6, param=True)
         bystander = d / 'out' / 'bystander.txt'
@@ -150,7 +154,7 @@ def body(run):
     failing, nt = run.corr('entry', 'Corr.CheckC10', cases)
     for k in failing[:5]:
         run.add_break('correspondence-break', 'process() outcome differs from Conc.Coord.run_entry on the generated _out_files', metas[k])
-    run.cov['rule'] = ('histories of 1..4 process() calls on one RasterFuse object over directories pre-seeded with nothing / junk files / an older '
+    run.cov['rule'] = ('histories of 1..4 process() calls on one RasterFuse object over directories pre-seeded with nothing / junk files / empty files / an older '
                        'product, str and Path arguments, overwrite on/off, parameter image on/off, model and kernel changed between calls; every '
                        'file hashed (sha256, mtime, size) before and after each call, successful calls compared with a fresh run in an empty '
                        'directory; plus CLI runs; non-trivial = some requested output pre-exists; distinct = distinct (history, call index)')
